@@ -378,6 +378,22 @@ func runC47(c *eng.Ctx) {
 						sel = s
 					}
 				}
+				if sel == nil {
+					// the poll may live in a small method of the writer, called here
+					for _, in := range chk.Instrs {
+						call, ok := in.(*ssa.Call)
+						if !ok {
+							continue
+						}
+						if callee := call.Call.StaticCallee(); callee != nil && eng.IsModuleFunc(callee) && len(call.Call.Args) == 1 && eng.Render(call.Call.Args[0]) == "p0" && eng.PureHelper(callee) {
+							eng.EachInstr(callee, func(i ssa.Instruction) {
+								if s, ok := i.(*ssa.Select); ok {
+									sel = s
+								}
+							})
+						}
+					}
+				}
 				okSel := sel != nil && !sel.Blocking && len(sel.States) == 1 && sel.States[0].Dir == 2 && loadOf(sel.States[0].Chan, "cancelled")
 				_ = okSel
 				if sel != nil {
